@@ -81,7 +81,7 @@ class Model:
         self.on = False
         self.queue = []; self.prev = []
         self.notes = []; self.lc = []; self.resolutions = []
-        self.targets = {}
+        self.targets = {}; self.cur_dest = None
         self.clear_req()
 
     # ------------------------------------------------------------------ helpers
@@ -120,12 +120,17 @@ class Model:
 
     # ------------------------------------------------------------------ R1: targets of a request
     def request_immediate(self, dest):
-        node = dest; phase = 1
+        node = dest; phase = 1; via_ortho = False
         while self.n[node]['parent'] >= 0:
             par = self.n[node]['parent']; prong = self.n[node]['prong']
             if self.kind(par) == 'C':
                 if phase == 1:
-                    self.want[par] = prong; phase = 2
+                    if via_ortho and self.act[par] == prong and 'ortho-destination-reenters-whole-region' not in self.dev:
+                        # an active orthogonal region on the way is addressed by its prong bits only
+                        if self.want[par] is not None and self.want[par] != prong: self.want[par] = None
+                    else:
+                        self.want[par] = prong
+                    phase = 2
                 elif phase == 2:
                     self.remain.add(par)
                     if (self.want[par] is not None and self.want[par] != prong) or self.act[par] != prong:
@@ -138,7 +143,7 @@ class Model:
                         if self.want[par] is not None and self.want[par] != prong:
                             self.want[par] = None; self.notes.append('override-higher')
             else:
-                self.obits[par].add(prong)
+                self.obits[par].add(prong); via_ortho = via_ortho or phase == 1
             node = par
 
     # ------------------------------------------------------------------ R2: downward resolution
@@ -149,23 +154,26 @@ class Model:
         if kd == 'L': return
         if kd == 'C':
             w = self.want[node]
-            if w is None: self.forward_active(self.child(node, self.act[node]), k, idx)
+            if w is None and node == self.cur_dest and 'ortho-destination-reenters-whole-region' not in self.dev:
+                self.deep_request(node, k, idx)      # reached through orthogonal regions only: this region is the destination
+            elif w is None: self.forward_active(self.child(node, self.act[node]), k, idx)
             else: self.forward_request(self.child(node, w), k, idx)
         else:
             if self.obits[node] or 'ortho-destination-ignored' in self.dev:
                 for p in sorted(self.obits[node]): self.forward_active(self.kids(node)[p], k, idx)
-            else:
+            elif node == self.cur_dest or 'ortho-without-bits-taken-for-destination' in self.dev:
                 self.deep_request(node, k, idx)      # no prong addressed: the region itself is the destination
     def forward_request(self, node, k, idx=None):
         kd = self.kind(node)
         self.pin(node, idx)
         if kd == 'L': return
+        mine = node == self.cur_dest and 'destination-keeps-earlier-resolution' not in self.dev   # the destination is resolved by its own request
         if kd == 'C':
             w = self.want[node]
-            if w is not None: self.forward_request(self.child(node, w), k, idx)
+            if w is not None and not mine: self.forward_request(self.child(node, w), k, idx)
             else: self.deep_request(node, k, idx)
         else:
-            if self.obits[node]:
+            if self.obits[node] and not mine:
                 for c in self.kids(node): self.forward_request(c, k, idx)
             else: self.deep_request(node, k, idx)
     def deep_request(self, node, k, idx=None):
@@ -180,6 +188,7 @@ class Model:
         self.pin(node, idx)
         if kd == 'L': return
         if kd == 'O':
+            if 'ortho-resolved-unmarked' not in self.dev: self.obits[node] = set(range(len(self.kids(node))))   # resolved as a whole: marked so
             for c in self.kids(node): self.request_change(c, idx)
             return
         s = self.strat(node)
@@ -204,6 +213,7 @@ class Model:
         self.pin(node, idx)
         if kd == 'L': return
         if kd == 'O':
+            if 'ortho-resolved-unmarked' not in self.dev: self.obits[node] = set(range(len(self.kids(node))))   # resolved as a whole: marked so
             for c in self.kids(node): self.request_restart(c, idx)
             return
         self.want[node] = 0; self.request_restart(self.kids(node)[0], idx)
@@ -212,6 +222,7 @@ class Model:
         self.pin(node, idx)
         if kd == 'L': return
         if kd == 'O':
+            if 'ortho-resolved-unmarked' not in self.dev: self.obits[node] = set(range(len(self.kids(node))))   # resolved as a whole: marked so
             for c in self.kids(node): self.request_resume(c, idx)
             return
         w = self.res[node] if self.res[node] is not None else 0
@@ -221,6 +232,7 @@ class Model:
         self.pin(node, idx)
         if kd == 'L': return
         if kd == 'O':
+            if 'ortho-resolved-unmarked' not in self.dev: self.obits[node] = set(range(len(self.kids(node))))   # resolved as a whole: marked so
             for c in self.kids(node): self.request_select(c, idx)
             return
         w = self.a_select(node); self.want[node] = w
@@ -231,6 +243,7 @@ class Model:
         self.pin(node, idx)
         if kd == 'L': return
         if kd == 'O':
+            if 'ortho-resolved-unmarked' not in self.dev: self.obits[node] = set(range(len(self.kids(node))))   # resolved as a whole: marked so
             for c in self.kids(node): self.request_utilize(c, idx)
             return
         best = None; us = []
@@ -244,6 +257,7 @@ class Model:
         self.pin(node, idx)
         if kd == 'L': return
         if kd == 'O':
+            if 'ortho-resolved-unmarked' not in self.dev: self.obits[node] = set(range(len(self.kids(node))))   # resolved as a whole: marked so
             for c in self.kids(node): self.request_randomize(c, idx)
             return
         ranks, top = self.ranks(node)
@@ -397,7 +411,9 @@ class Model:
             if par >= 0 and self.kind(par) == 'C': self.res[par] = self.n[d]['prong']
         elif d == 0: self.deep_request(0, k, idx)
         else:
+            self.cur_dest = d
             self.request_immediate(d); self.forward_active(0, k, idx)
+            self.cur_dest = None
     def enqueue(self, req):
         """request = (kind, dest, id, origin); False when the bounded queue rejects it"""
         if len(self.queue) < self.cap:
